@@ -419,6 +419,7 @@ where
                 DirectionForInsert::Reached if self.table[idx].value.is_some() => {
                     return Entry::Occupied(OccupiedEntry {
                         node: &mut self.table[idx],
+                        count: &mut self.count,
                         prefix,
                     })
                 }
